@@ -6,10 +6,11 @@ CONSTANTS
   MaxLen = 4
   MaxChains = 4
   MaxHands = 1
-  MaxOps = 5
+  MaxOps = 4
   MaxReqs = 0
   Variant = "copy"
   Emit = FALSE
+  EmitFrom = 1
 INVARIANTS Refines WalkOK WalksOwnHandler
 PROPERTIES ImmutableP
 VIEW View
